@@ -100,6 +100,7 @@ type PKCS7PaddingWriter struct {
 	swap      []byte        // 临时交换区
 	out       io.Writer     // 输出位置
 	blockSize int           // 分块大小
+	written   int64         // 已写入的总长度
 }
 
 // NewPKCS7PaddingWriter PKCS#7 填充Writer 可以去除填充
@@ -116,6 +117,7 @@ func (p *PKCS7PaddingWriter) Write(buff []byte) (n int, err error) {
 	if err != nil {
 		return 0, err
 	}
+	p.written += int64(n)
 	if p.cache.Len() > p.blockSize {
 		// 把超过一个分组长度的部分读取出来，写入到实际的out中
 		size := p.cache.Len() - p.blockSize
@@ -134,7 +136,7 @@ func (p *PKCS7PaddingWriter) Final() error {
 	// 在Write 之后 cache 只会保留一个Block长度数据
 	b := p.cache.Bytes()
 	length := len(b)
-	if length != p.blockSize {
+	if length != p.blockSize || p.written%int64(p.blockSize) != 0 {
 		return errors.New("非法的PKCS7填充")
 	}
 	if length == 0 {
